@@ -344,7 +344,12 @@ class _SafeQueue(Queue):
             # case, the executor_manager_thread fails all work_items with
             # BrokenProcessPool
             if work_item is not None:
-                work_item.future.set_exception(raised_error)
+                try:
+                    work_item.future.set_exception(raised_error)
+                except InvalidStateError:
+                    # The future was concurrently failed by the
+                    # executor_manager_thread (broken pool) or cancelled.
+                    pass
                 del work_item
             with self.shutdown_lock:
                 self.thread_wakeup.wakeup()
@@ -830,7 +835,9 @@ class _ExecutorManagerThread(threading.Thread):
         self.executor_flags.flag_as_broken(bpe)
 
         # Mark pending tasks as failed.
-        for work_item in self.pending_work_items.values():
+        # Iterate over a snapshot: the callbacks of the futures and the queue
+        # feeder thread can concurrently remove items from the dict.
+        for work_item in list(self.pending_work_items.values()):
             try:
                 work_item.future.set_exception(bpe)
             except InvalidStateError:
